@@ -65,7 +65,23 @@ def check(ctx: Ctx) -> str:
     gs = astq.all_guards(lt.node, cached)
     # conjunction of all guards with polarity
     conj: list[ast.expr] = []
+    # a named sub-test (`outdated = self.auto_reload and not template.is_up_to_date`, bound
+    # once) stands for its value
+    import copy as _copy
+
+    named = {}
+    for a_ in ast.walk(lt.node):
+        if isinstance(a_, ast.Assign) and len(a_.targets) == 1 and isinstance(a_.targets[0], ast.Name) and isinstance(a_.value, (ast.BoolOp, ast.Compare, ast.UnaryOp)):
+            nm = a_.targets[0].id
+            if sum(1 for x in ast.walk(lt.node) if isinstance(x, ast.Name) and x.id == nm and isinstance(x.ctx, ast.Store)) == 1:
+                named[nm] = a_.value
+
+    class _Exp(ast.NodeTransformer):
+        def visit_Name(self, n: ast.Name) -> ast.AST:  # noqa: N802
+            return self.visit(_copy.deepcopy(named[n.id])) if isinstance(n.ctx, ast.Load) and n.id in named else n
+
     for g, pol in gs:
+        g = _Exp().visit(_copy.deepcopy(g))
         conj.append(g if pol else ast.UnaryOp(op=ast.Not(), operand=g))
     at = []
     for g in conj:
